@@ -8,6 +8,7 @@ indexing, unwrap/expect, explicit panics - becomes a proof obligation that must 
 caller's context (arguments substituted, caller's constraints carried over), bounded depth.
 """
 import re
+import stdalg
 from lin import Lin, entails, fm_feasible, ty_range, SLICE_MAX
 from paths import explore
 from sym import fmt, walk, subst, map_children, simplify_proj
@@ -150,6 +151,10 @@ class Linearizer:
                             return en - st
                     elif n.endswith('RangeFull'):
                         return self.slice_len(base)
+        if s[0] == 'field' and s[2] in ('0', '1') and s[1][0] == 'call' and s[1][1] in SM.SPLIT_AT:
+            mid = self.lin(s[1][2][1])
+            if mid is not None:
+                return mid if s[2] == '0' else self.slice_len(s[1][2][0]) - mid
         if s[0] == 'cbytes':
             return Lin.const(len(s[1]) // 2)
         if s[0] == 'array':
@@ -406,6 +411,10 @@ def analyse(pv, fn, args=None, cons=None, facts=None, depth=0, chain=(), root=No
             if k in dec:
                 _, _, e, val, how = dec[k]
                 e = subst(e, args)
+                if not isinstance(val, int):
+                    e_c, v_c = stdalg.canon_decision(e, val)
+                    if isinstance(v_c, int):
+                        e, val = e_c, v_c
                 if isinstance(val, int):
                     bc = bool_constraints(L, e, val) if val in (0, 1) else None
                     if bc is None:
@@ -419,6 +428,9 @@ def analyse(pv, fn, args=None, cons=None, facts=None, depth=0, chain=(), root=No
                         if np_ is not None and len(nes) < 6:
                             nes.append(np_)
                     fs[L.canon(pv.inline(e))] = val
+                    ce_, cv_ = stdalg.canon_decision(pv.inline(e), val)
+                    if isinstance(cv_, int):
+                        fs[L.canon(ce_)] = cv_
                     if pv.assume:
                         cs.extend(pv.assume(fs, L) or [])
                     if not L.feasible(cs, nes):
@@ -571,9 +583,19 @@ def call_obligations(pv, L, fn, t, callee, cargs, cs, fs, at, chain, depth, root
             d = fs.get(L.canon(('discr', x)))
             if d is not None and d == want:
                 ok = True
+            else:
+                cx, cw = stdalg.canon_discr(x, want)
+                d = fs.get(L.canon(cx))
+                if d is not None and d == cw:
+                    ok = True
         if not ok and not L.feasible(cs):
             ok = True
         ob(ok, 'unwrap', what)
+        return out
+    if callee in SM.SPLIT_AT:
+        # split_at(mid) panics iff mid > len; its halves have lengths mid and len - mid (see slice_len)
+        mid = L.lin(cargs[1])
+        ob(mid is not None and L.prove(cs, [L.slice_len(cargs[0]) - mid]), 'index', 'split_at(%s) within slice %s' % (fmt(cargs[1])[:40], fmt(cargs[0])[:60]))
         return out
     if callee in SM.PANICKY_STD:
         ob(not L.feasible(cs), 'undecided', 'call to %s, which panics on some inputs and is not modelled' % callee)
